@@ -829,7 +829,8 @@ Inductive pop :=
 | PPost (d : list byte)
 | PBin                                               (* path.flags |= SepBinary *)
 | PClear (cxx : bool)                                (* mpt_path_invalidate / path::clear_data *)
-| PCopy.                                             (* mpt::path copy construction / assignment: the copy is used from here on *)
+| PCopy                                              (* mpt::path copy construction / assignment: the copy is used from here on *)
+| PSep (sep asg : option byte).                      (* mpt::path::set(str, len, sep, assign): a value >= 0 replaces the field *)
 
 Inductive pret := RNum (n : nat) | RErr (e : err) | RFault | RFuel.
 
@@ -853,6 +854,10 @@ Definition pstep (p : path) (o : pop) : path * pret :=
   | PBin => (mkpath (pbase p) (poff p) (plen p) (pfirst p) true (parr p) (pkeep p) (psep p) (passign p), RNum 0)
   | PClear cxx => pwrap p (let* p' := path_clear cxx p in Done (0, p'))
   | PCopy => (p, RNum 0)                             (* memcpy of the struct, one more reference on the array *)
+  | PSep sep asg =>
+    (mkpath (pbase p) (poff p) (plen p) (pfirst p) (pbin p) (parr p) (pkeep p)
+            (match sep with Some c => c | None => psep p end)
+            (match asg with Some c => c | None => passign p end), RNum 0)
   end.
 
 Definition pwalk (p : path) : cres (list (list byte)) := path_walk (S (plen p)) p.
@@ -866,8 +871,10 @@ Definition pwalk (p : path) : cres (list (list byte)) := path_walk (S (plen p)) 
    All of them are thin compositions of the operations above.
    ========================================================================== *)
 
-(* requested conversion: type 0 (existence only, no handler), 's', vector of char *)
-Inductive gty := GExist | GStr | GVec.
+(* requested conversion: type 0 (existence only, no handler), 's', vector of char,
+   TypeConvertablePtr (the stored value itself: mpt_config_getp(.., TypeConvertablePtr, &val),
+   config::get(path, convertable *&)) *)
+Inductive gty := GExist | GStr | GVec | GConv.
 (* what mpt_config_getp reports: MissingData / rc >= 0 without data / the text / BadType *)
 Inductive gval := GMissing | GFound | GText (v : value) | GBadType.
 
@@ -882,6 +889,9 @@ Definition value_conv (cxx : bool) (ty : gty) (v : value) : gval :=
   | GExist => GFound
   | GVec => GText v
   | GStr => if cxx || fits_basic v then GText v else GBadType
+  (* _convert_value hands out the convertable it was given, whatever metatype holds the
+     text (docs/C10_get_convertable.diff); the reader takes the text from that object *)
+  | GConv => GText v
   end.
 
 (* _convert_value of config_get.c applied to what the query found: an element without
